@@ -188,6 +188,21 @@ def representation_cases(run):
              "evaluate_density_hessian": lambda d, p: D.evaluate_density_hessian(d, basis, p),
              "evaluate_posdef_kinetic_energy_density": lambda d, p: D.evaluate_posdef_kinetic_energy_density(d, basis, p),
              "evaluate_general_kinetic_energy_density": lambda d, p: D.evaluate_general_kinetic_energy_density(d, basis, p, 0.5)}
+    # whether a representation of the density matrix is accepted cannot depend on the *orders* requested
+    from checks.common import repr_variants
+    for lab, v in repr_variants(g):
+        outcome = {}
+        for L in ((1, 0, 2), (2, 0, 0), (0, 0, 0), (1, 1, 0), (0, 2, 2), (0, 1, 0)):
+            try:
+                r = D.evaluate_deriv_density(np.array(L), v, basis, pts)
+                outcome[L] = "accepted"
+            except TypeError:
+                outcome[L] = "TypeError"
+        run.case(("repr-consistency", lab))
+        if len(set(outcome.values())) > 1:
+            run.violation(f"evaluate_deriv_density accepts a {lab} density matrix for some derivative orders and rejects it for others: "
+                          + ", ".join(f"{k}: {o}" for k, o in outcome.items()),
+                          dict(rep, case="representation", function="evaluate_deriv_density", variant=lab, signature={"kind": "representation-consistency"}))
     for name, f in funcs.items():
         repr_case(run, name, "points", lambda p, f=f: f(g, p), pts, rep)
         if run.tier != "quick" or name in ("evaluate_density", "evaluate_density_gradient", "evaluate_density_hessian"):
